@@ -20,7 +20,7 @@
                               is directly followed by a literal token is rejected (after the repair; eval_i64's lexer
                               cannot produce two adjacent literal tokens) *)
 From Coq Require Import List NArith ZArith Bool.
-From SC Require Import Base.Res Base.F64 Base.Dec Base.Num Base.Oracle Lang.Syntax Lang.Parser Gen.Tables
+From SC Require Import Base.Res Base.F64 Base.Dec Base.Num Base.Oracle Lang.Syntax Lang.Lexer Lang.Literal Lang.Parser Gen.Tables
   Eval.Run Spec.Surface Proofs.Grammar Proofs.Subst Proofs.Juxt Proofs.Adjacent.
 Import ListNotations.
 
@@ -215,6 +215,18 @@ Example C12_literal_literal_examples :
                          parse pt_f64 ph [TNum a; TK KLeftParen; TNum b; TK KRightParen] = Ok (NBin BMultiply (NNum a) (NNum b)) /\
                          parse pt_f64 ph [TK KLeftParen; TNum a; TK KRightParen; TNum b] = Ok (NBin BMultiply (NNum a) (NNum b)).
 Proof. intros. repeat split; vm_compute; reflexivity. Qed.
+
+(** ... and through the public entry points: an input whose token sequence has two literal tokens in a row is an error of the call *)
+Theorem C12_literal_literal_public :
+  (forall (L : libm) s p ts a b, tokens_of lt_f64 conv_f64 s = Some ts -> adj (TNum a) (TNum b) ts -> run_f64 L s p = Err) /\
+  (forall (L : libm) s p ts a b, tokens_of lt_number conv_num s = Some ts -> adj (TNum a) (TNum b) ts -> run_num L s p = Err) /\
+  (forall (C : cpxlib) s p ts a b, tokens_of lt_complex conv_cpx s = Some ts -> adj (TNum a) (TNum b) ts -> run_cpx C s p = Err) /\
+  (forall (D : declib) s p ts a b, tokens_of lt_decimal (conv_dec D) s = Some ts -> adj (TNum a) (TNum b) ts -> run_dec D s p = Err).
+Proof.
+  repeat split; intros X s p ts a b Et A; unfold run_f64, run_num, run_cpx, run_dec, run, ast_of; rewrite Et;
+    (erewrite (num_then_num_rejected _ _ eq_refl ts a b A) || erewrite num_then_num_rejected by eauto); reflexivity.
+Qed.
+Print Assumptions C12_literal_literal_public.
 
 (** what the four token classes are, on the regenerated tables (eval_f64 shown; the other tables pass the same side conditions) *)
 Example C12_token_classes :
